@@ -236,3 +236,7 @@ agg!(c13_3_fold_other, 3, [A, Anon, B], false);
 agg!(c13_3_same, 3, [A, A, A], false);
 agg!(c13_3_anon_file_anon, 3, [Anon, A, Anon], false);
 agg!(c13_4_fold_then_same, 4, [A, Anon, A, A], false);
+agg!(c13_2_heap_anon, 2, [Heap, Anon], false);
+agg!(c13_2_anon_vdso_gate, 2, [Anon, Vdso], true);
+agg!(c13_3_heap_heap_heap, 3, [Heap, Heap, Heap], false);
+agg!(c13_3_anon_heap_anon, 3, [Anon, Heap, Anon], false);
